@@ -148,6 +148,35 @@ def run_writers(policy):
   return s, box
 
 
+def run_writers_expired(policy):
+  """writer w0's timeout expires while its header is being written; w1 writes concurrently"""
+  from vf import sched, usbfake
+  am, to = usbfake.adb_message, usbfake.timeouts
+  box = {}
+
+  def main():
+    t0 = to.PolledTimeout.from_millis(1000)
+    msgs = [am.AdbMessage('WRTE', 1, 1, 'aaa'), am.AdbMessage('WRTE', 2, 2, 'bb')]
+
+    def on_write(t, chunk, ms):
+      if chunk == msgs[0].header:
+        t0.expire()
+      sched.point('transport.write')
+    t = usbfake.ChunkTransport(on_write=on_write)
+    ad = am.AdbTransportAdapter(t)
+    ths = [threading.Thread(target=ad.write_message, args=(msgs[0], t0), name='w0'),
+           threading.Thread(target=ad.write_message, args=(msgs[1], to.PolledTimeout.from_millis(1000)), name='w1')]
+    for th in ths:
+      th.start()
+    for th in ths:
+      th.join()
+    box['tx'] = list(t.tx)
+    box['frames'] = [[m.header, m.data] for m in msgs]
+  s = sched.Sched(policy=policy, max_steps=5000)
+  s.run(main)
+  return s, box
+
+
 def run_readers(policy):
   from vf import sched, usbfake
   am, to = usbfake.adb_message, usbfake.timeouts
@@ -188,6 +217,16 @@ def part2(bound):
     f = box['frames']
     if box['tx'] not in (f[0] + f[1], f[1] + f[0]):
       bad.append(('two writers: header and payload chunks interleave on the wire', dict(schedule=picks)))
+  for picks, decisions, box, failure in explore.explore(run_writers_expired, bound, max_runs=20000):
+    n += 1
+    if failure is not None:
+      bad.append(('two writers (one timed out after its header): run does not terminate (%s)' % type(failure).__name__,
+                  dict(schedule=picks)))
+      continue
+    f = box['frames']
+    if box['tx'] not in (f[0] + f[1], f[1] + f[0]):
+      bad.append(('two writers: the payload sent after an expired timeout interleaves with another writer\'s frame',
+                  dict(schedule=picks)))
   for picks, decisions, box, failure in explore.explore(run_readers, bound, max_runs=20000):
     n += 1
     if failure is not None:
